@@ -735,3 +735,79 @@ func verifC15Seconds(p *DHCPv4, code uint8, secs uint32) []byte {
 	}
 	return g
 }
+
+// VerifC15Sequence: builders called in sequence on the same objects. kind selects the
+// packet-derived builder (0 reply, 1 request-from-offer, 2 renew, 3 release).
+//
+//   - the caller's modifier list lives in a slice with spare capacity and is reused for two calls
+//     (the list must still be the caller's after the first call, and the second result must be
+//     what a call with a fresh list gives);
+//   - the first call overrides options 54 / 61 / 82 on the packet it builds; the source packet
+//     must encode as before, and a second, plain build from it must equal a build from a pristine
+//     copy of the source.
+func VerifC15Sequence(kind int) {
+	in := verifC15Input(3, 2, 4, 2, -1)
+	pristine := verifC15Call0(kind, clonePacket(in.p))
+	src0 := append([]byte(nil), in.p.ToBytes()...)
+	// caller-owned modifier list with spare capacity
+	hn := verifBytes("hostname", 3)
+	mods := make([]Modifier, 0, 8)
+	mods = append(mods, WithGeneric(GenericOptionCode(12), hn))
+	over54, over61, over82 := verifBytes("over54", 4), verifBytes("over61", 2), verifBytes("over82", 3)
+	first, err := verifC15CallMods(kind, in.p, append(mods, WithGeneric(OptionServerIdentifier, over54), WithGeneric(OptionClientIdentifier, over61), WithGeneric(OptionRelayAgentInformation, over82)))
+	verifAssert(err == nil && first != nil, "builder-succeeds")
+	if first == nil {
+		return
+	}
+	verifAssert(verifSame(first.Options[54], over54) && verifSame(first.Options[61], over61) && verifSame(first.Options[82], over82), "modifiers-prevail")
+	verifAssert(verifSame(in.p.ToBytes(), src0), "source-packet-unchanged-by-building-from-it")
+	verifAssert(len(mods) == 1, "caller-modifier-list-unchanged")
+	probe := &DHCPv4{Options: Options{}}
+	mods[0](probe)
+	verifAssert(verifSame(probe.Options[12], hn) && len(probe.Options) == 1, "caller-modifier-list-unchanged")
+	// second, plain build from the same source with the same (reused) caller list
+	second, err := verifC15CallMods(kind, in.p, mods)
+	verifAssert(err == nil && second != nil, "builder-succeeds")
+	if second == nil || pristine == nil {
+		return
+	}
+	verifAssert(verifSame(second.Options[12], hn), "modifiers-prevail")
+	delete(second.Options, 12)
+	// everything but the random transaction id of builders that draw one
+	if kind == 1 || kind == 0 {
+		verifAssert(verifSame(second.ToBytes(), pristine.ToBytes()), "second-build-equals-a-build-from-the-pristine-source")
+	} else {
+		second.TransactionID, pristine.TransactionID = TransactionID{}, TransactionID{}
+		verifAssert(verifSame(second.ToBytes(), pristine.ToBytes()), "second-build-equals-a-build-from-the-pristine-source")
+	}
+	verifReach("end")
+}
+
+func clonePacket(p *DHCPv4) *DHCPv4 {
+	q, err := FromBytes(append([]byte(nil), p.ToBytes()...))
+	if err != nil {
+		return nil
+	}
+	return q
+}
+
+func verifC15Call0(kind int, p *DHCPv4) *DHCPv4 {
+	if p == nil {
+		return nil
+	}
+	r, _ := verifC15CallMods(kind, p, nil)
+	return r
+}
+
+func verifC15CallMods(kind int, p *DHCPv4, mods []Modifier) (*DHCPv4, error) {
+	switch kind {
+	case verifC15Reply:
+		return NewReplyFromRequest(p, mods...)
+	case verifC15Request:
+		return NewRequestFromOffer(p, mods...)
+	case verifC15Renew:
+		return NewRenewFromAck(p, mods...)
+	default:
+		return NewReleaseFromACK(p, mods...)
+	}
+}
